@@ -172,6 +172,7 @@ def run(model: Model, rep: Report) -> None:
     r5.check(ok, site(uv), uv.qualname, "xi >= 0 -> xi ; otherwise xi + 2**n_bits", why=why)
     _decipher_walk(model, rep)
     _rc4(model, rep)
+    _saslprep(model, rep)
 
 
 def _constants(model: Model, rep: Report, spec: dict, fo: Folder) -> None:
@@ -308,3 +309,30 @@ def _rc4(model: Model, rep: Report) -> None:
     al = [st for st in ci.node.body if isinstance(st, ast.Assign) and isinstance(st.value, ast.Name) and st.value.id == "process"]
     names = sorted(t.id for st in al for t in st.targets if isinstance(t, ast.Name))
     r7.check(names == ["decrypt", "encrypt"], f"{ci.module.relpath}:{ci.node.lineno}:Arcfour", A, "encrypt = decrypt = process", why=f"aliases {names}")
+
+
+def _saslprep(model: Model, rep: Report) -> None:
+    r8 = rep.rule("C10-R8", "TABLE", "SASLprep (R6 passwords): non-ASCII spaces (table C.1.2) become U+0020, `mapped to nothing` characters (B.1) are removed, then NFKC; prohibited tables as in RFC 4013", 3)
+    f = model.func("pdfminer._saslprep.saslprep")
+    al = {}
+    for n in walk_no_nested(f.node):
+        if isinstance(n, ast.Assign) and isinstance(n.targets[0], ast.Name) and (dotted(n.value) or "").startswith("stringprep."):
+            al[n.targets[0].id] = (dotted(n.value) or "")[len("stringprep."):]
+    comps = [c for c in walk_no_nested(f.node) if isinstance(c, ast.ListComp) and isinstance(c.elt, ast.IfExp)]
+    ok = False
+    why = "mapping comprehension not found"
+    if comps:
+        c = comps[0]
+        def tab(e):
+            return al.get(dotted(e.func) or "", (dotted(e.func) or "").replace("stringprep.", "")) if isinstance(e, ast.Call) else None
+        to_space = tab(c.elt.test)
+        space = isinstance(c.elt.body, ast.Constant) and c.elt.body.value == " "
+        dropped = [tab(i.operand) for i in c.generators[0].ifs if isinstance(i, ast.UnaryOp) and isinstance(i.op, ast.Not)]
+        ok = to_space == "in_table_c12" and space and dropped == ["in_table_b1"]
+        why = f"mapped to space: {to_space}; removed: {dropped}"
+    r8.check(ok, site(f), f.qualname, "C.1.2 -> SPACE, B.1 -> removed", why=why + ": a correct password containing a no-break space or a soft hyphen is prepared differently from the writer's and rejected")
+    r8.check("unicodedata.ucd_3_2_0.normalize('NFKC',data)" in "".join(unparse(f.node).split()), site(f), f.qualname, "normalisation is NFKC of Unicode 3.2", why="changed")
+    mod = model.module("pdfminer._saslprep")
+    pro = mod.assigns.get("_PROHIBITED")
+    names = sorted((dotted(e) or "").replace("stringprep.", "") for e in pro.elts) if isinstance(pro, ast.Tuple) else []
+    r8.check(names == sorted(["in_table_c12", "in_table_c21_c22", "in_table_c3", "in_table_c4", "in_table_c5", "in_table_c6", "in_table_c7", "in_table_c8", "in_table_c9"]), f"{mod.relpath}:{getattr(pro, 'lineno', 0)}:_PROHIBITED", "pdfminer._saslprep", "prohibited output: C.1.2, C.2.1/C.2.2, C.3 .. C.9", why=f"{names}")
